@@ -109,6 +109,7 @@ package tds
 //@   ensures [ok-not-dry] err == nil ==> ch.$dry == old(ch.$dry)
 //@   ensures [chwf] chwf(ch)
 //@ interface FieldData.ReadFrom params (ch) returns (n, err)
+//@   requires [ready] this.$fdready
 //@   modifies ch.$r, ch.$dry
 //@   ensures [neb-on-dry] ch.$dry && !old(ch.$dry) ==> err != nil && neb(err)
 //@   ensures [ok-not-dry] err == nil ==> ch.$dry == old(ch.$dry)
@@ -117,3 +118,62 @@ package tds
 //@ # helpers that take a BytesChannel obey the same clause
 //@ func (*fieldDataBase).readFrom like FieldData.ReadFrom
 //@ func (*fieldData).ReadFrom like FieldData.ReadFrom
+
+//@ # ---------------------------------------------------------------------
+//@ # Field formats: the data type of a format object as a model field ($dt),
+//@ # so that the pure getters of the FieldFmt interface can be related.
+//@ ghost field FieldFmt.$dt int
+//@ typeinv fieldFmtBase { [dt] this.$dt == this.dataType }
+//@ pred fixedlen(dt int) { bytesz(dt) != -1 }
+//@ pred lengthbytes(dt int) { bytesz(dt) != -1 ? bytesz(dt) : lenbytes(dt) }
+
+//@ func (*fieldFmtBase).SetDataType
+//@   modifies field.dataType, field.$dt
+//@   ghost-update at exit: field.$dt := t
+//@ interface FieldFmt.SetDataType params (t)
+//@   modifies this.$dt, all fieldFmtBase.dataType
+//@   ensures this.$dt == t
+//@ interface FieldFmt.DataType returns (r)
+//@   modifies
+//@   ensures [dt] r == this.$dt
+//@ interface FieldFmt.IsFixedLength returns (r)
+//@   modifies
+//@   ensures [fixed] r == fixedlen(this.$dt)
+//@ interface FieldFmt.LengthBytes returns (r)
+//@   modifies
+//@   ensures [lengthbytes] r == lengthbytes(this.$dt)
+//@ interface FieldFmt.Status returns (r)
+//@   modifies
+//@ interface FieldFmt.MaxLength returns (r)
+//@   modifies
+//@ interface FieldFmt.Name returns (r)
+//@   modifies
+//@ interface FieldFmt.LocaleInfo returns (r)
+//@   modifies
+//@ interface FieldFmt.FormatByteLength returns (r)
+//@   modifies
+
+//@ # Field data: typestate "format has been set" ($fdready)
+//@ ghost field FieldData.$fdready bool
+//@ typeinv fieldDataBase { [fmt] this.$fdready ==> nonnil(this.fmt) }
+//@ func (*fieldDataBase).setFormat
+//@   requires [nonnil] nonnil(f)
+//@   modifies field.fmt, field.$fdready
+//@   ghost-update at exit: field.$fdready := true
+//@ interface FieldData.setFormat params (f)
+//@   requires [nonnil] nonnil(f)
+//@   modifies this.$fdready, all fieldDataBase.fmt
+//@   ensures this.$fdready
+//@ interface FieldData.Format returns (r)
+//@   modifies
+//@   ensures this.$fdready ==> nonnil(r)
+
+//@ func LookupFieldData returns (d, err)
+//@   requires [nonnil] nonnil(fieldFmt)
+//@   modifies
+//@   ensures [ready] err == nil ==> nonnil(d) && d.$fdready
+//@   ensures [fresh] err == nil ==> fresh(d)
+//@ func LookupFieldFmt returns (f, err)
+//@   modifies
+//@   ensures [nonnil] err == nil ==> nonnil(f) && f.$dt == dataType
+//@   ensures [fresh] err == nil ==> fresh(f)
